@@ -53,6 +53,10 @@ func New[H Hash](options ...func(config *Config[H])) (*DBFT[H], error) {
 func (d *DBFT[H]) addTransaction(tx Transaction[H]) {
 	d.Transactions[tx.Hash()] = tx
 	if d.hasAllTransactions() {
+		// PreCommits received while transactions were missing could not be
+		// checked against the PreBlock, do it before anybody counts them.
+		d.verifyPreCommitPayloadsAgainstPreBlock()
+
 		if d.IsPrimary() || d.Context.WatchOnly() {
 			return
 		}
@@ -356,6 +360,12 @@ func (d *DBFT[H]) onPrepareRequest(msg ConsensusPayload[H]) {
 	d.processMissingTx()
 	d.updateExistingPayloads(msg)
 	d.PreparationPayloads[msg.ValidatorIndex()] = msg
+	if d.isAntiMEVExtensionEnabled() {
+		// updateExistingPayloads ran while the request was not stored yet, so
+		// no PreBlock could be built there and PreCommits received before the
+		// request were not checked. Check them now.
+		d.verifyPreCommitPayloadsAgainstPreBlock()
+	}
 
 	// A primary can get its own PrepareRequest back from a recovery message
 	// after a restart, it must not answer it with a PrepareResponse (that
